@@ -19,6 +19,10 @@ def jobs(tier):
                 J.append(dict(id='dlim_%s_%s_%s' % (name, wn, 'close' if c else 'open'), harness='h_dlim', props=['C10', 'C07'] if f == 3 else ['C10'], unwind=12, defs=dict(FMT=f, WHICH=w, CLOSE=c), timeout=300, mem_gb=4,
                               desc='%s parser %s: max_nesting_depth_exceeded iff depth+1 > limit, else depth+1 and one state pushed regardless of the claimed length%s%s' % (name, wn, '; end restores' if c else '', '; UBJSON max_items' if f == 3 else ''),
                               bound='any depth 0..limit, any limit, 10 symbolic input bytes'))
+    for w, wn in ((0, 'end_document'), (1, 'end_array')):
+        J.append(dict(id='bson_%s' % wn, harness='h_bson_end', props=['C07'], unwind=12, defs=dict(FMT=4, WHICH=w), timeout=300, mem_gb=4, desc='bson parser %s: consumed bytes must equal the declared length (size_mismatch otherwise), then the parent accounts for them' % wn, bound='any declared length, any consumed count < 2^40'))
+    for w, wn in ((0, 'begin_array'), (1, 'begin_classical_array_storage'), (2, 'begin_object')):
+        J.append(dict(id='cbor_ns_%s' % wn, harness='h_cbor_ns', props=['C07'], unwind=12, defs=dict(FMT=1, WHICH=w, CLOSE=1), timeout=300, mem_gb=4, desc='cbor parser %s + end: a pending stringref-namespace tag (256) opens one namespace with the container and closing the container closes it' % wn, bound='tag pending or not, empty definite or indefinite container, any depth below the limit'))
     for a in ([0, 1, 2, 3, 4] if tier == 'thorough' else [0, 2, 4]):
         J.append(dict(id='srcread_bytes_a%d' % a, harness='h_srcread_bytes', props=['C10'], unwind=12, defs=dict(AVAIL=a), timeout=300, desc='source_reader<bytes_source>::read: short read, buffer never sized by the claimed length', bound='%d bytes available, any claimed length' % a))
         J.append(dict(id='srcread_iter_a%d' % a, harness='h_srcread_iter', props=['C10'], unwind=12, defs=dict(AVAIL=a), timeout=300, desc='source_reader<iterator_source>::read (remaining()==0 path): buffer grows by at most one chunk at a time', bound='%d bytes available, chunk 1..3, any claimed length' % a))
